@@ -4,11 +4,17 @@ import ColoVerif.Model.Circuit
 
 The C++ uses boost::polygon: the row rectangle minus the obstacles, sliced into
 rectangles, keeping only slabs as high as the row.  The model is 1-D interval
-subtraction: an obstacle (normalised so that min ≤ max on both axes) *touches*
+subtraction: an obstacle (normalised so that min ≤ max on both axes, which is
+what the constructor of `boost::polygon::rectangle_data` does) *touches*
 the row iff it has positive width and height and its open ranges meet the
 row's; the result is the list, left to right, of the maximal sub-intervals of
 `[minX, maxX)` that no touching obstacle meets, each with the row's y-range and
 orientation.  (That boost behaves like this is what the C15 correspondence checks.)
+
+Ill-formed rows, as the code treats them: the row rectangle goes through the same
+boost constructor, so a row with `maxX < minX` is handled as `[maxX, minX)`; the
+filter `newRow.height() == height()` compares with the *unnormalised* height
+`maxY - minY`, so a row with `maxY ≤ minY` yields nothing.
 -/
 namespace ColoVerif
 
@@ -41,8 +47,9 @@ def sweep (hi : Int) : Int → List (Int × Int) → List (Int × Int)
 
 /-- free x-intervals of the row -/
 def freeIntervals (row : Rect) (obstacles : List Rect) : List (Int × Int) :=
-  if row.minX < row.maxX && row.minY < row.maxY then
-    sweep row.maxX row.minX (sortIvs (obstacles.filterMap (cut row)))
+  if row.minX ≠ row.maxX && row.minY < row.maxY then
+    sweep (max row.minX row.maxX) (min row.minX row.maxX)
+      (sortIvs (obstacles.filterMap (cut row.normalize)))
   else []
 
 end Freespace
